@@ -102,6 +102,18 @@ def _groups_scale():
     ]
 
 
+def _refs_scale():
+    return [
+        ("lookbehinds over references to the ninth ... ninety-ninth group", "import re\nfor n in (1, 9, 10, 11, 12, 50, 98, 99):\n    groups = Concat(*[Capture(chr(0x61 + i % 26)) for i in range(n)])\n    last = chr(0x61 + (n - 1) % 26)\n"
+                                                                            "    for mk in (lambda y: PrecededBy('k', y), lambda y: NotPrecededBy('k', y), lambda y: EnclosedBy('k', y), lambda y: Pregex('k').not_enclosed_by(y)):\n"
+                                                                            "        for var in (Backreference(n) + Optional('a'), OneOrMore('a') + Backreference(n), Backreference(n) + Backreference(1) + AtMost('b', 2), Either(Backreference(n), 'aa' + Backreference(n))):\n"
+                                                                            "            try:\n                r = mk(var)\n            except NonFixedWidthPatternException:\n                continue\n            raise AssertionError('group %d: accepted %s' % (n, str(r)[-40:]))\n"
+                                                                            "        r = groups + mk(Backreference(n) + 'x' + Backreference(1))\n        re.compile(str(r), 24)\n"
+                                                                            "    full = groups + PrecededBy('k', Backreference(n))\n    t = ''.join(chr(0x61 + i % 26) for i in range(n))\n    assert full.is_exact_match(t + 'k'), n\n"
+                                                                            "    full2 = groups + last + PrecededBy('k', Backreference(n))\n    assert full2.is_exact_match(t + last + 'k'), n\n    assert not full2.is_exact_match(t + ('z' if last != 'z' else 'y') + 'k'), n"),
+    ]
+
+
 def _long_literals():
     return [
         ("long literals", "import re\nfor s in ('a' * 100 + '.', '.' * 64, '(' * 40 + ')' * 41, '\\\\' * 33, 'ab|' * 50, ''.join(chr(c) for c in range(32, 127)) * 3, 'é' * 70 + '$', '[' * 17 + '^-]' * 17):\n"
@@ -241,7 +253,7 @@ def _history():
 
 
 FAMILIES = {
-    'C01': _long_literals, 'C02': lambda: _q_cases()[:20] + _many_groups() + _nary() + _deep() + _long_literals()[1:3], 'C03': lambda: _nary() + _deep() + _long_literals() + _many_groups() + _classes_more()[:2] + _groups_scale() + FAMILIES['C10']()[-1:],
+    'C01': _long_literals, 'C02': lambda: _q_cases()[:20] + _many_groups() + _nary() + _deep() + _long_literals()[1:3], 'C03': lambda: _nary() + _deep() + _long_literals() + _many_groups() + _classes_more()[:2] + _groups_scale() + FAMILIES['C10']()[-1:] + _refs_scale(),
     'C04': _q_cases, 'C05': lambda: _nary()[3:], 'C06': lambda: _classes()[:1] + _classes_more()[:2], 'C07': lambda: _classes()[1:] + _classes_more()[2:], 'C08': lambda: _many_groups() + _deep()[1:] + _long_literals()[4:] + _groups_scale(),
     'C09': lambda: _nary()[4:] + [("wide repetition of assertions", "for n in (10, 11, 100):\n    for mk in (lambda: MatchAtStart('a'), lambda: FollowedBy('a', 'b'), lambda: EnclosedBy('a', 'b'), lambda: MatchAtLineEnd('a' * 40)):\n"
                                     "        for q in (lambda x: Exactly(x, n), lambda x: x * n, lambda x: AtLeastAtMost(x, 1, n), lambda x: AtLeast(x, n)):\n            try:\n                r = q(mk())\n            except CannotBeRepeatedException:\n                continue\n            raise AssertionError(str(r))\n"
@@ -252,7 +264,7 @@ FAMILIES = {
                                     "                   lambda: PrecededBy('a', nest(k, cap)), lambda: EnclosedBy(nest(k, cap), nest(k, cap) if not cap else 'q'), lambda: MatchAtEnd(nest(k, cap))):\n"
                                     "            for q in (lambda x: OneOrMore(x), lambda x: x * 2, lambda x: AtLeast(x, 0)):\n                try:\n                    r = q(mk())\n                except CannotBeRepeatedException:\n                    continue\n                raise AssertionError('depth %d: %s' % (k, str(r)[:80]))\n"
                                     "        assert OneOrMore(nest(k, cap)).is_exact_match(('a' + ''.join(chr(ord('b') + i) for i in range(k))) * 2), k")],
-    'C10': lambda: _nary()[4:] + [("wide fixed and variable widths", "for w in (10, 11, 64, 100, 255, 300):\n    for y in (Pregex('a' * w), Exactly(AnyDigit(), w), Exactly(Either('ab', 'cd'), w), Concat(*['x'] * w), AtLeastAtMost('a', w, w)):\n"
+    'C10': lambda: _nary()[4:] + _refs_scale() + [("wide fixed and variable widths", "for w in (10, 11, 64, 100, 255, 300):\n    for y in (Pregex('a' * w), Exactly(AnyDigit(), w), Exactly(Either('ab', 'cd'), w), Concat(*['x'] * w), AtLeastAtMost('a', w, w)):\n"
                                     "        import re\n        r = PrecededBy('k', y)\n        re.compile(str(r), 24)\n        assert r.get_matches(('ab' * w + 'a' * w + 'x' * w + '7' * w) + 'k') in ([], ['k'])\n"
                                     "    for y in (AtLeastAtMost('a', w, w + 1), AtLeast('a', w), AtMost(AnyDigit(), w), Either('a' * w, 'a' * (w + 1)), Pregex('a' * w) + Optional('b')):\n"
                                     "        try:\n            r = NotPrecededBy('k', y)\n        except NonFixedWidthPatternException:\n            continue\n        raise AssertionError(str(r))\n"
